@@ -491,6 +491,8 @@ SHAPES = [
     ('"""', '"""', 2, 3), ('"""', "", 2, 3), ('"""\\', '"""', 2, 3),
     ("#", "\n{a}", 1, 3), ("a", "", 1, 3), ("..", "", 1, 2), ("{a", "}", 1, 2),
     ('"\\uAB', '"', 2, 3), ('"\\u0', '"', 2, 3), ('"x\\u00e', '" ', 1, 3),      # escapes whose last digits are symbolic, string closed
+    # (appended) an ESCAPED BACKSLASH followed by text that looks like another escape: `"\\u00` + t + `"`, `"\\` + t + `u0041"`, `"\\\` + t + `"`
+    ('"\\\\u00', '"', 2, 2), ('"\\\\', 'u0041"', 1, 2), ('"\\\\\\', '"', 2, 3), ('"\\"\\', '"', 1, 2), ('"\\\\', '"', 2, 3),
 ]
 
 
